@@ -3,6 +3,7 @@ import Apko.Generated.Confine
 import Apko.Proofs.Lemmas.ConfinePath
 import Apko.Proofs.Lemmas.ConfineEtag
 import Apko.Proofs.Lemmas.ConfineKeys
+import Apko.Proofs.Lemmas.ConfinePkgDir
 import Apko.Generated.Cache
 /-!
 # C18 — nothing is written outside the designated roots
@@ -658,6 +659,92 @@ theorem keyfile_host_confined (base : Text) (hb : isAbs base = true) (c : Call) 
 theorem keyfile_dotdot_tainted :
     (dirStep baseT .openFileCreate { name := T "../canary", flag := 0o101, perm := 0o644 } 0 { host := canaryHost }).2
       = (.tainted, []) := by decide
+
+
+/-! ## the package cache directory (`cacheDirForPackage`) -/
+
+theorem within_absOf_of_prefix {root : Text} {D : List Name} (hD : NL D) (hp : parts (clean root) <+: D) :
+    Within root (absOf D) := by
+  rw [Within, parts_absOf hD]
+  exact ⟨hp, fun c hc => ⟨(hD c hc).1.2.2, (hD c hc).1.2.1⟩⟩
+
+/-- **pkg_cache_dir_within_root**: the directory `expandPackage` creates (`os.MkdirAll`) and fills for a package
+is the cache path without `.apk`, *not* cleaned again; for every URL path that is empty or absolute and every
+safe escape other than the literal `...apk` the kernel's lexical reading of it (`Clean`) lies within the cache
+root (possibly the root itself: a file name `...apk` directly below `root/esc`) -/
+theorem pkg_cache_dir_within_root {root path esc dd : Text} (hr : isAbs root = true) (he : EscSafe esc)
+    (hesc : esc ≠ T "...apk") (hpath : path = [] ∨ isAbs path = true)
+    (h : cacheDirForPackage root path esc = some dd) : Within root (clean dd) := by
+  unfold cacheDirForPackage at h
+  split at h
+  · cases h
+  · next p hp =>
+    split at h
+    · next hext =>
+      injection h with h
+      subst h
+      obtain ⟨rest, hv, hn, hc⟩ := cache_path_shape hr he hp
+      have hrest : rest ≠ [] := by rcases hc with e | e | e | e | ⟨_, e⟩ <;> simp [e]
+      obtain ⟨k, l, hk⟩ : ∃ k l, rest = k ++ [l] := by
+        rcases List.eq_nil_or_concat rest with e | ⟨k, l, e⟩
+        · exact absurd e hrest
+        · exact ⟨k, l, by rw [e, List.concat_eq_append]⟩
+      subst hk
+      rw [← List.append_assoc] at hv hn
+      have hl := hn l (by simp)
+      have hL : NL (parts (clean root) ++ k) := fun x hx => hn x (by
+        rcases List.mem_append.1 hx with e | e
+        · simp [e]
+        · simp [e])
+      -- the last component ends with `.apk`
+      have hseg : lastSeg p = l := by rw [hv, absOf_snoc]; exact lastSeg_append _ _ hl.2
+      obtain ⟨s0, hs0⟩ := ext_apk hext
+      rw [hseg] at hs0
+      have hs : '/' ∉ s0 := fun hm => hl.2 (by rw [hs0]; exact List.mem_append_left _ hm)
+      rw [hv, hs0, pkgdir_clean hL hs]
+      have hNL : NL (cleanStep true (parts (clean root) ++ k).reverse s0).reverse :=
+        NL_reverse (cleanStep_rooted_inv (fun c => '/' ∉ c) _ s0 (NL_reverse hL) hs)
+      refine within_absOf_of_prefix hNL ?_
+      by_cases h1 : s0 = [] ∨ s0 = dot
+      · rw [cleanStep_nop true _ h1, List.reverse_reverse]; exact List.prefix_append _ _
+      · by_cases h2 : s0 = dotdot
+        · subst h2
+          rw [cleanStep_pop (fun x hx => ((NL_reverse hL) x hx).1)]
+          have : (parts (clean root) ++ k).reverse.tail.reverse = (parts (clean root) ++ k).dropLast := by
+            rw [List.tail_reverse, List.reverse_reverse]
+          rw [this]
+          by_cases hkn : k = []
+          · -- the cache path is `root/<l>` with `l = "...apk"`: `l` is `esc` (excluded) or the directory was `..`
+            subst hkn
+            exfalso
+            have hl3 : l = T "...apk" := by rw [hs0]; rfl
+            rcases hc with e | e | e | e | ⟨e1, _⟩
+            · simp at e; exact hesc (by rw [← e, hl3])
+            · simp at e
+            · simp at e
+            · simp at e
+            · exact base_dir_ne_dotdot hpath e1
+          · rw [List.dropLast_append_of_ne_nil hkn]; exact List.prefix_append _ _
+        · have hne : s0 ≠ [] := fun e => h1 (Or.inl e)
+          have hnd : s0 ≠ dot := fun e => h1 (Or.inr e)
+          rw [cleanStep_push true _ ⟨hne, hnd, h2⟩]
+          simp only [List.reverse_cons, List.reverse_reverse, List.append_assoc]
+          exact List.prefix_append _ _
+    · cases h
+
+/-- both hypotheses are needed: with a relative URL path whose directory is `..` (not produced by `net/url` for
+a URL with a host, nor by `uri.New` for a local repository) the uncleaned `..` leaves the cache root -/
+theorem pkg_cache_dir_relative_escapes :
+    cacheDirForPackage (T "/t/cache") (T "../...apk") (T "https%3A%2F%2Frepo.test") = some (T "/t/cache/..")
+    ∧ cacheDirForPackage (T "/t/cache") (T "/") (T "...apk") = some (T "/t/cache/..") := by decide
+
+example : cacheDirForPackage (T "/t/cache") (T "/os/x86_64/p-1.0-r0.apk") (T "https%3A%2F%2Frepo.test%2Fos")
+    = some (T "/t/cache/https%3A%2F%2Frepo.test%2Fos/x86_64/p-1.0-r0") := by decide
+
+/-- a version `/../..` in an index entry (`Filename = name-version.apk` is appended to the repository URL and
+the URL path is not cleaned by `url.Parse`) makes the cache *root* the package's directory — within the root -/
+example : cacheDirForPackage (T "/t/cache") (T "/a-/../...apk") (T "https%3A%2F%2Frepo.test%2F")
+    = some (T "/t/cache/https%3A%2F%2Frepo.test%2F/..") := by decide
 
 /-! ## ties -/
 
